@@ -217,6 +217,55 @@ def scale_case(a, b):
                      "and each public clock reading (d, s) is the unique normalised pair d*86400+s = instant + (scale-TAI)")
 
 
+def ut1_day_case():
+    """UTC -> UT1 with UT1-UTC depending on the day (as in the IERS tables): the converted date denotes the same instant.
+    The EOP database is an uninterpreted function of the day it is asked for, bounded by 0.9 s at the two days used."""
+    from symx.core import uf
+    ins = [("tai_utc", "int"), ("d", "int"), ("s", "real")]
+
+    def pre(v):
+        return [v["tai_utc"] >= 10, v["tai_utc"] <= 37, v["d"] >= 41317, v["d"] <= 58000, v["s"] >= 0, v["s"] < 86400]
+
+    def run(env, v):
+        if env.symbolic:
+            m = datemod(env)
+
+            def get(mjd, dbname=None):
+                day = dtmodel.rfloor(mjd.r if isinstance(mjd, (SF, SI)) else R.lift(mjd))
+                day = day.r if isinstance(day, (SF, SI)) else R.lift(day)
+                u = uf("ut1_of_day", day)
+                CTX.assume(u.term() > z3.RealVal("-0.9"), u.term() < z3.RealVal("0.9"))
+                return _Eop(SF(v["tai_utc"]), SF(u))
+            m.EopDb = types.SimpleNamespace(get=get)
+            a = mk_date(env, m, v["d"], v["s"], "UTC")
+            u = a.change_scale("UT1")
+            return {"same_instant": (val(u._d) - val(a._d)) * 86400 + val(u._s) - val(a._s)}
+        import beyond.dates.eop as E
+        from beyond.dates import Date
+        from beyond.config import config
+
+        class DayDb:
+            def __getitem__(self, mjd):
+                day = int(mjd)
+                return E.Eop(x=0, y=0, dx=0, dy=0, deps=0, dpsi=0, lod=0, ut1_utc=0.002 * (day % 7) - 0.3, tai_utc=float(v["tai_utc"]))
+        E.EopDb._dbs["vf_daydb3"] = DayDb()
+        config.update({"eop": {"dbname": "vf_daydb3", "missing_policy": "error"}})
+        try:
+            a = Date(int(v["d"]), float(v["s"]), scale="UTC")
+            u = a.change_scale("UT1")
+            return {"same_instant": (u._d - a._d) * 86400 + u._s - a._s}
+        finally:
+            E.EopDb._dbs.pop("vf_daydb3", None)
+            config.pop("eop", None)
+
+    def ref(env, v, out):
+        return {"same_instant": 0}
+    return Case("scale/UTC->UT1/day_dependent_eop", ins, run, ref, pre=pre, timeout=60, maxpaths=200, tol=0, abs_tol=2e-6,
+                signature="Date.eop looked up by the day of the date's own scale",
+                extra_points=[{"d": 57000, "s": 86399.95}, {"d": 57001, "s": 0.05}],
+                desc="UTC -> UT1 with a UT1-UTC that changes from one day to the next: same instant within the microsecond")
+
+
 def tdb_case():
     """TDB: construction and recovery (the periodic term is the code's own; same-instant across a TDB conversion needs a Lipschitz
     bound of that term and is outside)"""
@@ -540,7 +589,7 @@ def policy_group():
 def all_cases(tier):
     K = bounds(tier)["daterange_unwinding"]
     uni = ["UT1", "GPS", "UTC", "TAI", "TT"]
-    cs = [offset_case(a) for a in SCALES] + [scale_case(a, b) for a in uni for b in uni] + [tdb_case()] + \
+    cs = [offset_case(a) for a in SCALES] + [scale_case(a, b) for a in uni for b in uni] + [tdb_case(), ut1_day_case()] + \
         [arith_case(a) for a in ("TAI", "TT", "GPS", "UTC")]
     cs += [order_case("UTC", "TAI"), order_case("TT", "GPS"), order_case("UT1", "TT"), order_case("UTC", "UTC")]
     for sign in (1, -1):
